@@ -420,7 +420,9 @@ theorem delete_entry {w : W} {sb : List Nat} {L : Lay} (hi : WInv w sb L) {u k :
     unfold volOf removed
     simp only [hvf', hgv 6 (by decide)]
     rfl
-  refine ⟨T1, T2, _, _, hT, ⟨hok', ?_, ?_, ?_, hi.catNe⟩, hvf, hfnd, hfree, hvol⟩
+  refine ⟨T1, T2, _, _, hT, ⟨hok', ?_, ?_, ?_, hi.catNe, by rw [hc']; exact hi.cover,
+    by rw [hv']; unfold Vtoc.track1; rw [hfr.low 1 (by decide)]; exact hi.track1,
+    by rw [hv']; unfold Vtoc.lastTrack; rw [hfr.low 0x30 (by decide)]; exact hi.lastTrack⟩, hvf, hfnd, hfree, hvol⟩
   · rw [hc']
     refine ⟨hd.hc, by rw [hsz]; exact hd.size, by rw [hgv _ (by decide)]; exact hd.vTracks, by rw [hgv _ (by decide)]; exact hd.vSpt,
       by rw [hgv _ (by decide)]; exact hd.vPairs, by rw [hgv _ (by decide), hgv _ (by decide)]; exact hcatch, hd.catNodup, hd.catLen, ?_⟩
